@@ -21,6 +21,7 @@ fn rm<const N: usize>(v: &Value) -> Result<Value> {
 
 pub fn exec(v: &Value) -> Result<Value> {
 	match v["op"].as_str().context("op")? {
+		"cycle" => super::cycle::exec(v),
 		"remove" => match v["M"]["ns"].as_array().map(|a| a.len()) {
 			Some(2) => rm::<2>(v), Some(3) => rm::<3>(v), Some(4) => rm::<4>(v),
 			n => bail!("unsupported N {n:?}"),
